@@ -48,6 +48,19 @@ def obligations_for(pid):
     return ob.get(pid, {"theorems": [], "partial": [], "examples": []})
 
 
+def step_leanchecker(pid, log):
+    """thorough tier: re-check the compiled theorem modules with the independent checker"""
+    ob = obligations_for(pid)
+    mods = ob.get("modules") or [f"Qwt.Props.{pid}"]
+    bad = []
+    for m in mods:
+        rc, out = sh(["lake", "env", "leanchecker", m], cwd=LEAN, timeout=3000)
+        log.append(f"leanchecker {m}: rc={rc} {out[-300:]}")
+        if rc != 0:
+            bad.append(m)
+    return bad
+
+
 def step_lean(pid, log):
     """build driver + the property's theorem module; audit axioms. Returns dict."""
     res = {"driver_ok": False, "props_ok": False, "obligations": [], "discharged": [], "axioms": {}, "broken": []}
@@ -464,9 +477,10 @@ def space_analysis(pid, script_lines, impl, model, meta):
             info = cur["mk"].get(k)
             if info is None or i >= len(impl) or i >= len(model):
                 continue
+            nomodel = model[i] == "-"
             try:
                 ih, iself, iusage = [int(x) for x in impl[i].split(" ")]
-                mh, mself, musage = [int(x) for x in model[i].split(" ")]
+                mh, mself, musage = (ih, iself, iusage) if nomodel else [int(x) for x in model[i].split(" ")]
             except ValueError:
                 viol.append({"type": "impl-vs-model", "line": i, "case": cur["case"], "request": req, "impl": impl[i][:200], "model": model[i][:200], "spec": ""})
                 continue
@@ -477,7 +491,7 @@ def space_analysis(pid, script_lines, impl, model, meta):
             # T3: usage transcription and requested heap bytes
             if iusage != musage:
                 viol.append(dict(rec, type="impl-vs-model", sub="usage"))
-            if (not huff and ih != mh) or (huff and ih < mh):
+            if ih != mh:
                 viol.append(dict(rec, type="impl-vs-model", sub="heap"))
             # the property's own bounds
             n, m, nlev, b, pfs = None, None, None, None, None
@@ -502,8 +516,19 @@ def space_analysis(pid, script_lines, impl, model, meta):
                     round(8 * ih / max(1, ideal), 4) if n >= 100000 else 0)
                 if 8 * ih > bound:
                     viol.append(dict(rec, type="impl-vs-spec", sub="C14-bound", spec=f"heap_bits<={bound}", impl=f"heap_bits={8 * ih}"))
-            if pid == "C14" and fam in ("rsq", "rsw"):
-                pass  # covered through T3 (heap == model) and the Lean bound on the model
+            if pid == "C14" and fam == "rsq":
+                bsz = int(info["vals"][0]) if info["vals"] else 256
+                n = len([x for x in info["vals"][1:] if x])
+                bound = 2 * n * ((1125 if bsz == 256 else 1063) + 10) // 1000 + 2600
+                if 8 * (ih + iself) > bound:
+                    viol.append(dict(rec, type="impl-vs-spec", sub="C14-bound", spec=f"bits<={bound}", impl=f"bits={8 * (ih + iself)}"))
+            if pid == "C14" and fam == "rsw":
+                src = cur["mk"].get(info["src"])
+                if src and src["fam"] == "bvbits":
+                    n = int(src["vals"][0])
+                    bound = n * 1047 // 1000 + 6100
+                    if 8 * (ih + iself) > bound:
+                        viol.append(dict(rec, type="impl-vs-spec", sub="C14-bound", spec=f"bits<={bound}", impl=f"bits={8 * (ih + iself)}"))
             if pid == "C16":
                 live = ih + iself
                 comps = 8
